@@ -7,6 +7,7 @@
 #define CANARY_HERE()
 #endif
 
+#ifndef UNIT_UNITS
 void h_isEuropeanNumericCharacter(void)
 {
     char in_c;
@@ -57,3 +58,27 @@ void h_convertPrefixToInt(void)
     convertPrefixToInt(in_s, in_ok_null ? NULL : &okv);
     CANARY_HERE();
 }
+
+#endif
+#ifdef UNIT_UNITS
+void h_addUnit_prefix(void)
+{
+    vstr in_s, ref_, id_;
+    double e, m;
+    ref self = 1;
+    __CPROVER_assume(in_s.n <= N);
+    ref_.n = 0;
+    id_.n = 0;
+    F_UnitsImpl_mUnitDefinitions[self].n = 0;
+    __exc = 0;
+    Units_addUnit__s_s_d_d_s(self, ref_, in_s, e, m, id_);
+    __CPROVER_assert(__exc == 0, "Units::addUnit: no exception escapes whatever the prefix text is");
+    __CPROVER_assert(F_UnitsImpl_mUnitDefinitions[self].n == 1, "Units::addUnit appends one unit child");
+    vstr stored = F_UnitsImpl_mUnitDefinitions[self].d[0].mPrefix;
+    if (SPEC_PREFIX_DROPPED(in_s))
+        __CPROVER_assert(stored.n == 0, "Units::addUnit: an integer prefix of value 0 is dropped");
+    else
+        __CPROVER_assert(vstr_eq(stored, in_s), "Units::addUnit: any other prefix text (in particular text that is not an integer) is kept as given, so it can be reported");
+    CANARY_HERE();
+}
+#endif
